@@ -402,4 +402,47 @@ theorem defaultsRec_ok (fmt : Fmt) : ∀ (fuel : Nat) (rebuild : Pairs → Pairs
       (fun c k v c' t' hs => defaultsItem_ok (fun rb c a c' t h => ih rb c a c' t h) rebuild c k v c' t' hs)
       add cur cur' t h
 
+/-! ### trace paths are never empty -/
+
+def TraceNE (t : Trace) : Prop := ∀ w ∈ t, w.1 ≠ []
+
+theorem TraceNE.single (fk : Val) (b : Bool) : TraceNE [([fk], b)] := by
+  intro w hw; simp only [List.mem_singleton] at hw; subst hw; simp
+
+theorem TraceNE.descend (fk : Val) (t : Trace) : TraceNE (([fk], false) :: under fk t) := by
+  intro w hw
+  rcases List.mem_cons.mp hw with e | hw
+  · subst e; simp
+  · simp only [Merge.under, List.mem_map] at hw
+    obtain ⟨w', _, rfl⟩ := hw
+    simp
+
+theorem TraceNE.append {t1 t2 : Trace} (h1 : TraceNE t1) (h2 : TraceNE t2) : TraceNE (t1 ++ t2) := by
+  intro w hw
+  rcases List.mem_append.mp hw with h | h
+  · exact h1 w h
+  · exact h2 w h
+
+theorem mergeItem_trace_ne {fmt : Fmt}
+    {recur : (Pairs → Pairs) → Pairs → Pairs → Except Exc (Pairs × Trace)}
+    (rebuild : Pairs → Pairs) (cur : Pairs) (k v : Val) (cur' : Pairs) (t : Trace)
+    (h : mergeItem fmt recur rebuild cur k v = .ok (cur', t)) : TraceNE t := by
+  unfold mergeItem at h
+  simp only [] at h
+  repeat' split at h
+  all_goals first
+    | (cases h; done)
+    | (cases h; exact TraceNE.single _ _)
+    | (cases h; exact TraceNE.descend _ _)
+
+theorem mergeRec_trace_ne (fmt : Fmt) (fuel : Nat) (rebuild : Pairs → Pairs) (cur add cur' : Pairs) (t : Trace)
+    (h : mergeRec fmt fuel rebuild cur add = .ok (cur', t)) : TraceNE t := by
+  cases fuel with
+  | zero => simp [mergeRec] at h
+  | succ n =>
+    simp only [mergeRec] at h
+    exact foldItems_inv (fun _ _ t => TraceNE t) (fun _ => by intro w hw; simp at hw)
+      (fun _ _ _ _ _ => TraceNE.append)
+      (fun c k v c' t' hs => mergeItem_trace_ne rebuild c k v c' t' hs) add cur cur' t h
+
 end Pypyr.C10
